@@ -1,13 +1,12 @@
 (* Transport between the correspondence harness and the executable model: a tiny
    S-expression type, and encoders/decoders for the model's data.  Glue, not trusted by
    any theorem; exercised by every correspondence run. *)
-From Coq Require Import String Ascii.
-From Gemato Require Import Py.PyStr Py.PyTime Model.Entry.
+From Coq Require Import String.
+From Gemato Require Import Py.PyStr Py.PyLit Py.PyTime Model.Entry.
 Open Scope N_scope.
 
 Inductive sx := SN (n : Z) | SS (s : ustr) | SL (l : list sx).
 
-Definition u (s : string) : ustr := map N_of_ascii (list_ascii_of_string s).
 
 Definition sym (s : string) : sx := SS (u s).
 Definition sbool (b : bool) : sx := SN (if b then 1 else 0)%Z.
